@@ -59,6 +59,20 @@ TOP_PURE_FUNCS = ("METRIC_DICT", "_extend_confusion_matrix", "_tradeoff_curve", 
                   "_reformat_and_group_data", "InterpolatedThresholder")
 
 
+# SIMPLE_CONSTRAINTS is only looked up by key (its keys reach the user through `sorted(...)`): the order of its entries
+# is not observable, so the same mapping is emitted in the pinned order
+PINNED_SIMPLE = ["selection_rate_parity", "demographic_parity", "false_positive_rate_parity", "false_negative_rate_parity",
+                 "true_positive_rate_parity", "true_negative_rate_parity"]
+
+
+def pinned_dict_order(pairs):
+    keys = [k for k, _ in pairs]
+    if sorted(keys) == sorted(PINNED_SIMPLE) and len(set(keys)) == len(keys):
+        d = dict(pairs)
+        return [(k, d[k]) for k in PINNED_SIMPLE]
+    return pairs
+
+
 def parse_top(repo):
     tree = normalize.inline_module_numbers(normalize.parse(translate._read(repo, TOP)), strings=True)
     return normalize.canon_tree(tree, PINNED_TOP, extra_funcs=TOP_PURE_FUNCS)
@@ -302,6 +316,7 @@ def lift_threshold(repo):
     if not isinstance(simple, ast.Dict):
         raise Untranslatable("threshold lifter: SIMPLE_CONSTRAINTS is not a dict literal")
     simple = [(_str_const(k, "constraint"), _str_const(v, "metric")) for k, v in zip(simple.keys, simple.values)]
+    simple = pinned_dict_order(simple)
 
     def strset(name):
         v = _find_assign(t2, name)
